@@ -8,6 +8,7 @@ import (
 	"encoding/json"
 	"errors"
 	"fmt"
+	"io"
 	"net/http"
 	"strings"
 	"testing"
@@ -18,7 +19,7 @@ import (
 	"github.com/flamego/flamego/verifharness/internal/evid"
 )
 
-const rule = "case = request method in {GET, HEAD, POST, head} x an underlying writer (with or without http.Flusher) x a history of 1..14 operations over {WriteHeader(100..999), Write(0..64 bytes, optionally cut short by the underlying writer with an error), Flush, Before(hook)}; hooks set a header, read Status()/Written() and log themselves. " +
+const rule = "case = request method in {GET, HEAD, POST, head} x an underlying writer (with or without http.Flusher) x a history of 1..14 operations over {WriteHeader(100..999), Write / io.WriteString of 0..64 bytes (optionally cut short by the underlying writer with an error), Flush, Before(hook)}; hooks set a header, read Status()/Written() and log themselves. " +
 	"Oracle: a state-machine model written from the statement, compared after every step (Status, Written, Size, return values of Write) together with invariants over the log of calls the underlying writer received (<=1 WriteHeader, before every Write/Flush; hooks registered before the trigger ran exactly once, in reverse order, before that WriteHeader, and saw Status()==0; later hooks never run). " +
 	"non-trivial = a history with >=2 hooks and a trigger, or a second WriteHeader / an implicit 200, or a body write on HEAD, or a short write; distinct by case text"
 
@@ -30,7 +31,7 @@ var assumptions = []string{
 func TestMain(m *testing.M) { evid.Main(m, "C13", rule, assumptions) }
 
 type Op struct {
-	K     string `json:"op"` // wh | w | f | before
+	K     string `json:"op"` // wh | w | ws (io.WriteString) | f | before
 	V     int    `json:"v,omitempty"`
 	Short int    `json:"short,omitempty"` // w: the underlying writer accepts only V-Short bytes and errors (when >0)
 }
@@ -116,7 +117,7 @@ func checkCase(c Case) (out evid.Outcome) {
 			}
 			trigger(op.V)
 			w.WriteHeader(op.V)
-		case "w":
+		case "w", "ws":
 			if mStatus == 0 {
 				second = true // implicit 200
 			}
@@ -137,7 +138,15 @@ func checkCase(c Case) (out evid.Outcome) {
 			} else if op.V > 0 {
 				headWrite = true
 			}
-			n, err := w.Write(make([]byte, op.V))
+			var n int
+			var err error
+			if op.K == "ws" {
+				// strings travel through io.WriteString, which uses a WriteString
+				// method when the writer has one
+				n, err = io.WriteString(w, strings.Repeat("s", op.V))
+			} else {
+				n, err = w.Write(make([]byte, op.V))
+			}
 			s.short = 0
 			if c.Method == http.MethodHead {
 				// nothing is forwarded; the statement leaves the reported count open
@@ -260,7 +269,7 @@ func genCase(t *rapid.T) Case {
 		case k < 2:
 			c.Ops = append(c.Ops, Op{K: "wh", V: rapid.IntRange(100, 999).Draw(t, "code")})
 		case k < 5:
-			op := Op{K: "w", V: rapid.IntRange(0, 64).Draw(t, "n")}
+			op := Op{K: []string{"w", "w", "ws"}[rapid.IntRange(0, 2).Draw(t, "wk")], V: rapid.IntRange(0, 64).Draw(t, "n")}
 			if rapid.IntRange(0, 5).Draw(t, "short") == 0 && op.V > 0 {
 				op.Short = rapid.IntRange(1, op.V).Draw(t, "cut")
 			}
@@ -276,7 +285,7 @@ func genCase(t *rapid.T) Case {
 }
 
 func TestProp(t *testing.T) {
-	evid.Rapid(t, "history", 20000, 200000, func(t *rapid.T) {
+	evid.Rapid(t, "history", 20000, 1000000, func(t *rapid.T) {
 		c := genCase(t)
 		evid.Run(t, "history", c, func() evid.Outcome { return checkCase(c) })
 	})
